@@ -243,20 +243,21 @@ func ExtractDeliveryReceipt(s string) (d DeliveryReceipt, err error) {
 func findSubValue(s string, sub, backup string, maxSize int) (value string) {
 	// maxSize = 0 // 先不校验
 
-	sub = sub + ":"
-	n := strings.Index(s, sub)
+	key := sub + ":"
+	n := strings.Index(s, key)
 	if n == -1 {
 		if backup == "" {
 			return
 		}
 		// 用backup再找一遍
-		n = strings.Index(s, backup)
+		key = backup + ":"
+		n = strings.Index(s, key)
 		if n == -1 {
 			return
 		}
 	}
 
-	start := n + len(sub)
+	start := n + len(key)
 	// 当前 key 后面的下一个空格
 	spaceIdx := strings.Index(s[start:], " ")
 
